@@ -592,7 +592,21 @@ func (g *gen) shaped(d *opDesc) (*big.Int, *big.Int) {
 			}
 		}
 	case "mul":
-		switch g.r.Intn(4) {
+		switch g.r.Intn(6) {
+		case 5:
+			fallthrough
+		case 4: // product of a few units in the last place: exact value between 0 and 3 units, every sign combination
+			// (the truncated quotient is 0 or +-1: the rounding decides sign and magnitude of the result)
+			au := int64(1 + g.r.Intn(9))
+			a = big.NewInt(au)
+			b = new(big.Int).Mul(big.NewInt(1+g.r.Int63n(30/au)), new(big.Int).Quo(div, big.NewInt(10))) // a*b/div in 0.1 .. 3.0
+			if g.r.Intn(3) == 0 {
+				b = g.delta(b)
+			}
+			if d.ta == d.tb && g.r.Intn(2) == 0 {
+				a, b = b, a
+			}
+			a, b = g.sign(a), g.sign(b)
 		case 0, 1: // product on a tie of the chopped scale, or next to it
 			i := g.r.Intn(d.sc)
 			a = new(big.Int).Mul(g.odd(1+g.r.Intn(200)), pow10(i))
